@@ -555,6 +555,15 @@ fn run(prop: &str, tier: Tier, cancel: bool) -> i32 {
         rep.require_goal("receive-cancelled");
     }
     let wall = tier.pick(40, 900);
+    if cancel {
+        // the server's own use of the guarantee
+        for (name, scen, budget) in crate::server::c07_phases(tier) {
+            let h = crate::server::Scenario(scen);
+            let cfg = Config { budget, max_wall: std::time::Duration::from_secs(wall), ..Default::default() };
+            rep.add(explore(name, h.0.to_json(), &h, &cfg));
+        }
+        rep.rule.push_str("; plus Server::run over a scripted listener with two connections (calls cut mid-frame, short reads, delayed polls): the server drops all pending receive futures whenever another arm of its loop fires, and every call must still be answered once, in order");
+    }
     for (name, t, mode, budget) in phases(tier, cancel) {
         let h = Framing::new(t, mode, cancel);
         let cfg = Config { budget, max_wall: std::time::Duration::from_secs(wall), ..Default::default() };
@@ -572,6 +581,9 @@ pub fn run_c07(tier: Tier) -> i32 {
 }
 
 pub fn replay(v: &Value) -> Replayed {
+    if v["harness"].get("max_conns").is_some() {
+        return crate::server::replay(v);
+    }
     match Framing::from_config(&v["harness"]) {
         Some(h) => replay_dfs(&h, v),
         None => Replayed::Error("cannot rebuild the framing harness from the replay file".into()),
